@@ -75,6 +75,9 @@ type methodTarget struct {
 	Bytes   bool             // bytes are Lean `Nat`s below 256, `[]byte` is `List Nat`; switches the byte forms on
 	PkgFn   map[string]pkgFn // package-level functions of the same file translated elsewhere (Gen/<…>.lean), callable as `a, b := f(x)`
 	Imports []string         // Lean modules the generated file imports
+	// extension for the voter (proof agent S19): receiver fields that are other components (their calls are the
+	// function parameters of Ext / ExtFn); unlike Sync, a statement that only touches them is NOT skipped
+	Comp []string
 }
 
 // pkgFn: a package-level function translated by the first translator (main.go `targets`)
@@ -118,6 +121,29 @@ var methodTargets = []methodTarget{
 		PkgFn:   map[string]pkgFn{"index": {Lean: "HsVerif.Gen.index", Args: []string{"Int"}, Res: []string{"Int", "Int"}}},
 		Imports: []string{"HsVerif.Gen.Bitfield"},
 		Params:  []string{}},
+	// Voter.Verify / Vote / StopVoting (Props/C03Gen).  A proposal is a pointer `*hotstuff.ProposeMsg`: the opaque
+	// pointer type Msg (nil = Msg_nil; a field read `proposal.F` or `*proposal` through nil clears the flag; the
+	// struct value `*proposal` handed to VoteRule is represented by the pointer it was read through), its fields are
+	// the accessor parameters Msg_Block / Msg_AggregateQC / Msg_ID.  `error` is its presence (true = an error).
+	{File: "protocol/consensus/voter.go", Recv: "Voter", Fields: []string{"lastVotedView", "lastVotedQCView"},
+		Comp:    []string{"config", "leaderRotation", "ruler", "aggregator", "auth", "committer"},
+		Methods: []string{"Verify", "Vote", "StopVoting"}, Out: "Voter", TypeVars: []string{"Msg", "Blk", "QC", "AggQC", "Hash", "PC"},
+		Types: map[string]string{"*hotstuff.ProposeMsg": "Msg", "*hotstuff.Block": "Blk", "hotstuff.View": "Int",
+			"hotstuff.PartialCert": "PC", "error": "Bool"},
+		Accessors: map[string]string{"View": "Int", "BlockHash": "Hash", "Parent": "Hash", "QuorumCert": "QC"},
+		FieldAcc:  map[string]string{"Msg.Block": "Blk", "Msg.AggregateQC": "AggQC", "Msg.ID": "Int"},
+		Ext:       map[string][2]string{"auth.CreatePartialCert": {"Blk", "PC"}},
+		ExtFn: map[string][]string{"ruler.VoteRule": {"Int", "Msg", "Bool"}, "auth.VerifyAnyQC": {"Msg", "Bool"},
+			"leaderRotation.GetLeader": {"Int", "Int"}},
+		Ptr:  map[string]string{"Msg": "Msg_nil", "Blk": "Blk_nil", "AggQC": "AggQC_nil"},
+		Zero: map[string]string{"PC": "PC_zero"},
+		Deq:  []string{"Msg", "Blk", "AggQC", "Hash"},
+		Params: []string{"(Msg_nil : Msg)", "(Blk_nil : Blk)", "(AggQC_nil : AggQC)", "(PC_zero : PC)",
+			"(Msg_Block : Msg → Blk)", "(Msg_AggregateQC : Msg → AggQC)", "(Msg_ID : Msg → Int)",
+			"(Blk_View : Blk → Int)", "(Blk_Parent : Blk → Hash)", "(Blk_QuorumCert : Blk → QC)",
+			"(QC_BlockHash : QC → Hash)", "(QC_View : QC → Int)",
+			"(ruler_VoteRule : Int → Msg → Bool)", "(auth_VerifyAnyQC : Msg → Bool)", "(leaderRotation_GetLeader : Int → Int)",
+			"(auth_CreatePartialCert : Blk → PC × Bool)"}},
 }
 
 // rulesTarget: CommitRule / VoteRule (and the helper qcRef where the ruleset has one) of a consensus ruleset.
@@ -334,6 +360,17 @@ func (t *mtr) expr(e ast.Expr) string {
 			}
 		}
 		return t.fail(e, "composite literal")
+	case *ast.StarExpr:
+		// `*p` for a pointer p to an opaque struct (voter): the struct value is represented by the pointer it is read
+		// through (it is only handed to parameter functions); dereferencing nil clears the flag
+		if t.tg.Comp != nil {
+			in := t.expr(x.X)
+			if _, ok := t.tg.Ptr[t.vtype[in]]; ok && t.tg.FieldAcc != nil {
+				t.derefCheck(in)
+				return in
+			}
+		}
+		return t.fail(e, "dereference")
 	case *ast.UnaryExpr:
 		if x.Op == token.SUB {
 			return t.typed("(-"+t.expr(x.X)+")", "Int")
@@ -397,6 +434,16 @@ func (t *mtr) expr(e ast.Expr) string {
 		return t.fail(e, "operator")
 	case *ast.CallExpr:
 		if exprName(x.Fun) == "fmt.Errorf" {
+			if t.tg.Comp != nil {
+				// the arguments are evaluated (a nil dereference among them would panic)
+				for _, a := range x.Args {
+					if bl, ok := a.(*ast.BasicLit); ok && bl.Kind == token.STRING {
+						continue
+					}
+					t.expr(a)
+				}
+				return t.typed("true", "Bool")
+			}
 			return "true" // an error value: only its presence is modelled
 		}
 		if se, ok := x.Fun.(*ast.SelectorExpr); ok && len(x.Args) == 0 {
@@ -493,6 +540,13 @@ func (t *mtr) cond(e ast.Expr) string {
 						o = x.Y
 					}
 					os := t.expr(o)
+					if t.tg.Comp != nil && t.vtype[os] == "Bool" && t.tg.Types["error"] == "Bool" {
+						// an `error` (a Go bool cannot be compared with nil): present or not
+						if x.Op == token.NEQ {
+							return "(" + os + " = true)"
+						}
+						return "(" + os + " = false)"
+					}
 					nilName, ok := t.tg.Ptr[t.vtype[os]]
 					if !ok || !inList(t.tg.Deq, t.vtype[os]) {
 						t.fail(e, "comparison with nil of a value that is not a pointer")
@@ -943,6 +997,21 @@ func (t *mtr) block(list []ast.Stmt, c *mctx, ind string, rest func(c *mctx, ind
 			t.fail(s, "two-value assignment")
 			return ""
 		}
+		if len(x.Lhs) == 2 && len(x.Rhs) == 1 && x.Tok == token.ASSIGN && t.tg.Comp != nil {
+			// a, b = recv.<ext>.<M>(arg) into two variables in scope (named results) of the right types
+			v0, ok0 := x.Lhs[0].(*ast.Ident)
+			v1, ok1 := x.Lhs[1].(*ast.Ident)
+			call, okc := x.Rhs[0].(*ast.CallExpr)
+			if ok0 && ok1 && okc && v0.Name != "_" && v1.Name != "_" && v0.Name != v1.Name {
+				a, b := t.id(v0.Name), t.id(v1.Name)
+				if pre, val, ok2, valTy, ok := t.twoResults(call, c, ind); ok && c.scope[a] && c.scope[b] &&
+					t.vtype[a] == valTy && t.vtype[b] == "Bool" {
+					return pre + fmt.Sprintf("%slet %s := %s\n%slet %s := %s\n", ind, a, val, ind, b, ok2) + next(c, ind)
+				}
+			}
+			t.fail(s, "two-value assignment")
+			return ""
+		}
 		if len(x.Lhs) == 2 && len(x.Rhs) == 1 && x.Tok == token.DEFINE {
 			// v, ok := s.<ext>.<M>(arg)
 			if call, ok := x.Rhs[0].(*ast.CallExpr); ok && len(call.Args) == 1 {
@@ -1220,6 +1289,7 @@ func (t *mtr) fieldRead(x *ast.SelectorExpr) (string, bool) {
 	}
 	fn := ty + "_" + x.Sel.Name
 	t.use(fmt.Sprintf("(%s : %s → %s)", fn, ty, rty))
+	t.derefCheck(v) // (a field read through a nil pointer panics; no-op for value types)
 	return t.typed("("+fn+" "+v+")", rty), true
 }
 
@@ -1807,6 +1877,13 @@ func (t *mtr) method(fd *ast.FuncDecl) (string, error) {
 				return "", fmt.Errorf("result type %s", t.src(f.Type))
 			}
 			zero := map[string]string{"Int": "0", "Bool": "false", "Option α": "none"}[ty]
+			if z, ok := t.tg.Zero[ty]; ok && zero == "" && t.tg.Comp != nil && len(f.Names) > 0 {
+				t.use(fmt.Sprintf("(%s : %s)", z, ty))
+				zero = z
+			}
+			if zero == "" && t.tg.Comp != nil && len(f.Names) > 0 {
+				return "", fmt.Errorf("zero value of the named result type %s", t.src(f.Type))
+			}
 			if len(f.Names) == 0 {
 				resTypes = append(resTypes, ty)
 			}
@@ -1815,6 +1892,9 @@ func (t *mtr) method(fd *ast.FuncDecl) (string, error) {
 				resTypes = append(resTypes, ty)
 				c.results = append(c.results, v)
 				c.scope[v] = true
+				if t.tg.Comp != nil {
+					t.vtype[v] = ty
+				}
 				inits = append(inits, fmt.Sprintf("  let %s : %s := %s\n", v, ty, zero))
 			}
 		}
@@ -1964,7 +2044,7 @@ func translateMethods(repo, outDir string) ([]fnOut, error) {
 		}
 		// every field of the struct must be either modelled or listed as synchronisation
 		for fl := range t.ftype {
-			if !t.modelled(fl) && !t.isSync(fl) && !inList(tg.Log, fl) {
+			if !t.modelled(fl) && !t.isSync(fl) && !inList(tg.Log, fl) && !inList(tg.Comp, fl) {
 				structOK = false
 			}
 		}
